@@ -205,6 +205,6 @@ def _mk_empty(kind, prop):
 
 for _kind in ('node', 'component', 'service', 'interface', 'link'):
     for _p in EMPTYABLE:
-        add("element/%s/overwrite_%s_with_empty" % (_kind, _p), _mk_empty(_kind, _p), timeout=300, encodes=ENC_G,
+        add("element/%s/overwrite_%s_with_empty" % (_kind, _p), _mk_empty(_kind, _p), timeout=1200, encodes=ENC_G,
             tiers=("quick", "thorough") if _kind in ('node', 'interface') else ("thorough",),
             bounds="%s element: %s set to a non-empty value from symbolic scalars, then to a value with nothing set: reads back as absent/empty" % (_kind, _p))
